@@ -263,6 +263,16 @@ impl Space for TotalRelative {
                         out.nontrivial += 1;
                     }
                     out.lockstep("Duration::total(relativeTo plain date)", &Ok((*num, *den)), &got, |a, b| close_to_rational(b.as_inner(), a.0, a.1), attrs);
+                    // the same duration reached through negated() / abs(): the measurement does not depend on the route
+                    if f.iter().any(|x| *x != 0) {
+                        let negative = f.iter().any(|x| *x < 0);
+                        let via = call(|| {
+                            let opposite = dur10(to_fields(&f.map(|x| -x)))?;
+                            let same = if negative { opposite.negated() } else { opposite.abs() };
+                            same.total_with_provider(tunit(unit), Some(RelativeTo::PlainDate(pdate.clone())), &ErrProvider)
+                        });
+                        out.lockstep("Duration::total of a duration obtained through negated() / abs()", &Ok((*num, *den)), &via, |a, b| close_to_rational(b.as_inner(), a.0, a.1), attrs);
+                    }
                 }
                 Err(DErr::SpecAssert) => {
                     out.unjudged += 1;
